@@ -106,9 +106,7 @@ func (e *stdioEnv) run(cs scase, rng *rand.Rand) {
 	rep := e.rep
 	rep.Progress(cs.label())
 	rep.Eval(1)
-	rep.SetAdd("fault_points", "stdio|call|"+cs.class())
-	rep.SetAdd("pending_counts", fmt.Sprint(cs.Pending))
-	rep.Count("cases_"+cs.Fault, 1)
+	notePoint(rep, "stdio", cs.Fault, "call:"+cs.Point, cs.Pending)
 	c, err := newStdio(cs)
 	if err != nil {
 		rep.Inconclusive("stdio client: " + err.Error())
@@ -173,11 +171,13 @@ func (e *stdioEnv) run(cs scase, rng *rand.Rand) {
 	switch {
 	case cs.Script != "":
 		// the scripted child faults by itself while answering the first call
-		calls, _ = issue(cs.Pending, map[string]interface{}{"pad_n": 600}, "", callDeadline)
-		at = time.Now().Add(200 * time.Millisecond)
+		tmo := callDeadline
 		if cs.Fault == "stall" {
 			connEnds = false
+			tmo = stallDeadline
 		}
+		calls, _ = issue(cs.Pending, map[string]interface{}{"pad_n": 600}, "", tmo)
+		at = time.Now().Add(200 * time.Millisecond)
 	case cs.Fault == "none":
 		calls, _ = issue(cs.Pending, map[string]interface{}{"pad_n": 600}, "", callDeadline)
 		at = time.Now()
@@ -242,6 +242,7 @@ func (e *stdioEnv) run(cs scase, rng *rand.Rand) {
 		ref = time.Now()
 	}
 	until := ref.Add(watchdog)
+	var outcomes []string
 	for _, cl := range calls {
 		r, ok := cl.await(until)
 		if !ok {
@@ -278,9 +279,11 @@ func (e *stdioEnv) run(cs scase, rng *rand.Rand) {
 					map[string]interface{}{"case": cs, "error": errStr(r.Err), "returned_after_fault_ms": r.Returned.Sub(at).Milliseconds()})
 			}
 		}
-		rep.Max("max_return_after_fault_ms", r.Returned.Sub(at).Milliseconds())
+		rep.Max("return_after_fault_ms", r.Returned.Sub(at).Milliseconds())
 		rep.Distinct(fmt.Sprintf("stdio|%s|p=%d|%s", cs.class(), cs.Pending, outcome))
+		outcomes = append(outcomes, outcome+" "+errStr(r.Err))
 	}
+	sampleOnce(rep, map[string]interface{}{"case": cs, "outcome_per_pending_call": outcomes})
 	for _, cl := range calls {
 		cl.cancel()
 	}
@@ -304,7 +307,7 @@ func (e *stdioEnv) finish(sig func(string) string, label, class string, pending,
 			rep.Inconclusive(label + ": Close watchdog fired without a library frame")
 		}
 	}
-	rep.Max("max_close_ms", took.Milliseconds())
+	rep.Max("close_ms", took.Milliseconds())
 	if took > 4500*time.Millisecond {
 		rep.Count("close_took_5s", 1)
 		rep.SetAdd("close_5s_errors", errStr(cerr))
@@ -317,6 +320,63 @@ func (e *stdioEnv) finish(sig func(string) string, label, class string, pending,
 	}
 }
 
+// closeStress: n clients in parallel, each handshake + one completed call + Close (Close racing the
+// library's own process watcher); judged by the leak levels over three rounds.
+func (e *stdioEnv) closeStress(n int) {
+	rep := e.rep
+	cs := scase{Fault: "client-close", Point: "idle", Pending: 1}
+	for round := 0; round < 3; round++ {
+		rep.Progress(cs.label() + fmt.Sprintf(" round=%d clients=%d", round, n))
+		rep.Eval(1)
+		notePoint(rep, "stdio", cs.Fault, "call:"+cs.Point, cs.Pending)
+		done := make(chan time.Duration, n)
+		for i := 0; i < n; i++ {
+			go func() {
+				c, err := kit.NewStdioClient("c08std", nil, 30*time.Second)
+				if err != nil {
+					done <- -1
+					return
+				}
+				ctx, cancel := context.WithTimeout(context.Background(), 20*time.Second)
+				defer cancel()
+				if _, err := c.Initialize(ctx, &mcp.InitializeRequest{}); err != nil {
+					closeClient(c)
+					done <- -1
+					return
+				}
+				cl := startCallTool(c, ctx, func() {}, nextNonce("cs"), "p", map[string]interface{}{"pad_n": 30})
+				cl.await(time.Now().Add(watchdog))
+				ok, took, cerr := closeClient(c)
+				if !ok {
+					took = -2
+				} else if took > 4500*time.Millisecond {
+					rep.SetAdd("close_5s_errors", errStr(cerr))
+				}
+				done <- took
+			}()
+		}
+		slow, hung := 0, 0
+		for i := 0; i < n; i++ {
+			switch d := <-done; {
+			case d == -2:
+				hung++
+			case d > 4500*time.Millisecond:
+				slow++
+			}
+		}
+		rep.Count("close_took_5s", int64(slow))
+		rep.Count("stdio_clients_closed", int64(n))
+		if hung > 0 {
+			parked, fn, stack := parkedInLibrary(leak.Dump(), "main.c08Close")
+			if parked {
+				rep.Violation(cs.sig("close-hangs"), fmt.Sprintf("%s: %d of %d Close calls had not returned after %s; parked in %s", cs.label(), hung, n, closeWatchdog, fn), map[string]interface{}{"goroutine": stack})
+			}
+		}
+		e.lt.after(cs.class(), 1, n)
+		rep.Distinct(fmt.Sprintf("stdio|%s|round=%d", cs.class(), round))
+	}
+}
+
 // ---- schedule-sensitive cases (yield controller); each runs in its own child ----
 
 // schedA: a response arrives while the caller's cancellation closes the per-request channel.
@@ -324,7 +384,7 @@ func schedA(rep *vh.Reporter, seed int64, holdPoint string) {
 	cs := scase{Fault: "cancel", Point: "response-arrival[hold=" + holdPoint + "]", Pending: 1}
 	rep.Progress(cs.label())
 	rep.Eval(1)
-	rep.SetAdd("fault_points", "stdio|call|"+cs.class())
+	notePoint(rep, "stdio", cs.Fault, "call:"+cs.Point, cs.Pending)
 	ctl := sched.New(20*time.Second, seed)
 	ctl.Install()
 	defer sched.Uninstall()
@@ -363,6 +423,9 @@ func schedA(rep *vh.Reporter, seed int64, holdPoint string) {
 		cl.await(time.Now().Add(watchdog))
 	}
 	rep.Max("sched_parked_"+holdPoint, int64(parked))
+	if parked > 0 {
+		rep.Count("sched_races_set_up", 1)
+	}
 	if parked == 0 {
 		rep.Inconclusive(cs.label() + ": nothing was parked at the yield point")
 	}
@@ -396,7 +459,7 @@ func schedB(rep *vh.Reporter, seed int64, pending int) {
 	cs := scase{Fault: "client-close", Point: "pending[hold=stdiocli.req.cleanup]", Pending: pending}
 	rep.Progress(cs.label())
 	rep.Eval(1)
-	rep.SetAdd("fault_points", "stdio|call|"+cs.class())
+	notePoint(rep, "stdio", cs.Fault, "call:"+cs.Point, cs.Pending)
 	ctl := sched.New(25*time.Second, seed)
 	ctl.Install()
 	defer sched.Uninstall()
@@ -424,6 +487,9 @@ func schedB(rep *vh.Reporter, seed int64, pending int) {
 	// the calls leave their select (transport context cancelled) and are parked before their cleanup
 	parked := ctl.AwaitWaiting("stdiocli.req.cleanup", pending, 5*time.Second)
 	rep.Max("sched_parked_cleanup", int64(parked))
+	if parked >= pending {
+		rep.Count("sched_races_set_up", 1)
+	}
 	select {
 	case <-closed: // Close has closed every pending channel
 	case <-time.After(closeWatchdog + time.Second):
@@ -451,7 +517,7 @@ func schedC(rep *vh.Reporter, seed int64) {
 	cs := hcase{Kind: kit.LSSE, Target: "call", Fault: "close", Point: "stream:new-request[hold=ssecli.req.afterclosed]", Pending: 1, Ctx: "deadline"}
 	rep.Progress(cs.label())
 	rep.Eval(1)
-	rep.SetAdd("fault_points", fmt.Sprintf("%s|%s|%s", cs.Kind, cs.Target, cs.class()))
+	notePoint(rep, string(cs.Kind), cs.Fault, cs.Target+":"+cs.Point, cs.Pending)
 	in := kit.Start(kit.LSSE, kit.Opts{})
 	defer in.Close()
 	kit.StdFixture(in)
@@ -488,6 +554,9 @@ func schedC(rep *vh.Reporter, seed int64) {
 	ctl.Release("ssecli.req.afterclosed")
 	r, ok := cl.await(at.Add(3*time.Second + watchdog))
 	cancel()
+	if parked > 0 && n > 0 {
+		rep.Count("sched_races_set_up", 1)
+	}
 	switch {
 	case parked == 0 || n == 0:
 		rep.Inconclusive(cs.label() + ": the race was not set up")
